@@ -48,3 +48,16 @@ def excluded(**named) -> bool:
             # the predicate speaks about inputs this call site does not name
             continue
     return False
+
+
+def untraced(fn, *a, **k):
+    """Call a real (C-implemented) function on concrete arguments outside CrossHair's interception,
+    so that CPython itself answers, not CrossHair's model of it.  Works with and without tracing."""
+    try:
+        from crosshair.tracers import NoTracing, is_tracing
+    except Exception:  # noqa
+        return fn(*a, **k)
+    if is_tracing():
+        with NoTracing():
+            return fn(*a, **k)
+    return fn(*a, **k)
